@@ -48,7 +48,7 @@ impl Prop for C02 {
         true
     }
     fn random_cases(tier: Tier) -> u64 {
-        tier.pick(20_000, 2_500_000)
+        tier.pick(60_000, 2_500_000)
     }
     fn strategy(tier: Tier) -> BoxedStrategy<Case> {
         let (max_len, max_cells, max_labels) = tier.pick((64, 10, 10), (1024, 60, 60));
@@ -62,8 +62,11 @@ impl Prop for C02 {
         // the same label name (and the same name list) on k addresses, both endians; strings equal to label names
         let mut idx = 0u64;
         for be in [false, true] {
-            for k in 1..=8u32 {
+            for k in [1u32, 2, 3, 4, 5, 6, 7, 8, 21, 33, 40, 64, 100] {
                 for variant in 0..6u32 {
+                    if k > 8 && variant > 1 {
+                        continue;
+                    }
                     let mine = idx % nshards == shard;
                     idx += 1;
                     if !mine {
@@ -97,7 +100,7 @@ impl Prop for C02 {
         }
     }
     fn exhaustive_note(_tier: Tier) -> Option<String> {
-        Some("fixed family: one label name (or name list) repeated on 1..=8 addresses in 6 variants x both endiannesses, each built in 8 call orders".into())
+        Some("fixed family: one label name (or name list) repeated on 1..=8 addresses in 6 variants, and on 21/33/40/64/100 addresses, x both endiannesses, each built in 8 call orders".into())
     }
 
     fn run(case: &Case, cx: &mut Cx) {
